@@ -2,9 +2,11 @@
    Directives used: those of ExtrOcamlBasic only (bool, option, unit, list, prod, sumbool, sumor);
    no Extract Constant; Z / positive stay as extracted inductives. *)
 Require Import ExtrOcamlBasic.
-Require Import Base Fixed Panic Curve.
+Require Import Base Fixed Panic Curve Price.
 Extraction Language OCaml.
 Extraction "extract/model.ml"
   p_pause p_unpause p_unpause_if_expired p_is_expired p_can_pause c_is_expired ix_propagate
   ix_panic_pause ix_panic_unpause ix_panic_unpause_permissionless is_protocol_paused mkP
-  ir_validate calc_interest_rate mpc legacy_curve.
+  ir_validate calc_interest_rate mpc legacy_curve
+  of_int PE_BORSH_IO px_scale_supplies px_try_from_bank px_try_from_bank_with_max_age px_price_of_type
+  px_price_and_conf px_try_get_price_feed px_single_balance_components px_liquidation_prices px_receivership_withdraw_price.
